@@ -51,10 +51,20 @@ Proof.
   { rewrite H2. destruct (if rel then _ else _); [apply push_frag_guid'|reflexivity]. }
   destruct b; [apply on_data_proxy_guid in H; congruence|inversion H; subst; exact G].
 Qed.
+Lemma raise_range_guid : forall p first last p', raise_range p first last = Ok p' -> wp_guid p' = wp_guid p.
+Proof.
+  intros p first last p' H. unfold raise_range in H. apply bind_ok in H as (am & _ & H). inversion H; subst.
+  destruct (_ && _); [destruct p as [g a b c d e h i j k]|]; reflexivity.
+Qed.
+Lemma raise_all_guid : forall ms p p', raise_all ms p = Ok p' -> wp_guid p' = wp_guid p.
+Proof.
+  induction ms as [|m t IH]; intros p p' H; cbn [raise_all] in H; [inversion H; reflexivity|].
+  apply bind_ok in H as (q & H1 & H). apply raise_range_guid in H1. apply IH in H. congruence.
+Qed.
 Lemma gap_proxy_guid : forall start gl p p', gap_proxy start gl p = Ok p' -> wp_guid p' = wp_guid p.
 Proof.
-  intros start gl p p' H. unfold gap_proxy in H. inversion H; subst.
-  rewrite fold_raise_guid'. destruct (start <? ss_base gl); [apply raise_high_guid'|reflexivity].
+  intros start gl p p' H. unfold gap_proxy in H. apply bind_ok in H as (p1 & H1 & H). apply raise_all_guid in H.
+  destruct (start <? ss_base gl); [apply raise_range_guid in H1|inversion H1; subst]; congruence.
 Qed.
 Lemma write_message_guid : forall reid p p' o, write_message reid p = Ok (p', o) -> wp_guid p' = wp_guid p.
 Proof.
